@@ -78,25 +78,27 @@ def r1_call_discipline(repo: Repo, rep):
             raise AnalysisError(f"operator {name} vanished")
         rep.saw(fi)
         vararg = fi.node.args.vararg.arg if fi.node.args.vararg else None
-        seen = set()
+        occ = {}
         for p in _op_paths(fi):
             for v in _all_values(p):
                 par = _parents(v)
                 for c in _grad_calls(v):
-                    key = def_id(c) or dump(c)
-                    if key in seen:
-                        continue
-                    seen.add(key)
-                    out = c.args[0] if c.args else kwarg(c, "outputs")
-                    inp = c.args[1] if len(c.args) > 1 else kwarg(c, "inputs")
-                    cg = kwarg(c, "create_graph")
-                    rep.check(R, out is not None and _full_sum(out) is not None, fi.site(c), fi.fq, "differentiated quantity is `<tensor>.sum()` (full reduction)", dump(out)[:80], dump(out)[:80])
-                    rep.check(R, cg is not None and dump(cg) == "True", fi.site(c), fi.fq, "create_graph=True", f"create_graph={dump(cg)}", f"create_graph={dump(cg)}")
-                    ok = isinstance(inp, ast.Name) and _over_varargs(p, inp.id, vararg)
-                    rep.check(R, ok, fi.site(c), fi.fq, f"differentiation w.r.t. the current element of *{vararg}", dump(inp), dump(inp))
+                    key = (getattr(c, "lineno", 0), dump(c))
+                    ent = occ.setdefault(key, [c, p, []])
                     pa = par.get(id(c))
-                    rep.check(R, isinstance(pa, ast.Subscript) and pa.value is c and dump(pa.slice) == "0", fi.site(c), fi.fq, "the gradient w.r.t. that variable is taken ([0])",
-                              dump(pa)[:60] if pa is not None else "", "result index")
+                    if pa is not None:
+                        ent[2].append(pa)
+        for key, (c, p, uses) in occ.items():
+            out = c.args[0] if c.args else kwarg(c, "outputs")
+            inp = c.args[1] if len(c.args) > 1 else kwarg(c, "inputs")
+            cg = kwarg(c, "create_graph")
+            rep.check(R, out is not None and _full_sum(out) is not None, fi.site(c), fi.fq, "differentiated quantity is `<tensor>.sum()` (full reduction)", dump(out)[:80], dump(out)[:80])
+            rep.check(R, cg is not None and dump(cg) == "True", fi.site(c), fi.fq, "create_graph=True", f"create_graph={dump(cg)}", f"create_graph={dump(cg)}")
+            ok = isinstance(inp, ast.Name) and _over_varargs(p, inp.id, vararg)
+            rep.check(R, ok, fi.site(c), fi.fq, f"differentiation w.r.t. the current element of *{vararg}", dump(inp), dump(inp))
+            # how the result tuple of this evaluation is used, over all its occurrences (`x = grad(..)[0]`, `(x,) = grad(..)`)
+            good = bool(uses) and all(isinstance(pa, ast.Subscript) and dump(pa.slice) == "0" for pa in uses)
+            rep.check(R, good, fi.site(c), fi.fq, "the gradient w.r.t. that variable is taken ([0])", str(sorted({dump(pa)[-30:] for pa in uses}))[:80], "result index")
 
 
 def _narrow(e: ast.AST):
@@ -431,7 +433,7 @@ def r3_tables(repo: Repo, rep):
         stores = {}
         for e in p.events:
             if e.kind == "store" and e.raw is not None:
-                mm = _re.search(r"\[(:,\d)\]$", dump(e.raw).replace(" ", ""))
+                mm = _re.search(r"\[(:,\d)\]$", dump(e.target).replace(" ", "") if e.target is not None else dump(e.raw).replace(" ", ""))
                 if mm:
                     stores[mm.group(1)] = e.value
         for c, ((a1, b1), (a2, b2)) in ROT.items():
